@@ -266,7 +266,7 @@ def run_wall(ctx, binp, corr_broken):
     elif "no tests to run" not in out4:
         ctx.log("TestVerifScanWindowReplay did not complete (rc=%s):\n%s" % (rc4, out4[-1500:]))
         corr_broken.append("scan-window replay exit %s" % rc4)
-    # open finding stale-heap-entry-hides-due (audit A3, proposed fix F48): replayed on every run, KNOWN-FINDING only while it reproduces
+    # fixed finding stale-heap-entry-hides-due (audit A3, fix F48 = /repo 88fd245): replayed on every run, must not reproduce (VIOLATION if it does)
     rc5, out5 = ctx.run_cmd([binp, "-test.run", "^TestVerifStaleHeapReplay$", "-test.count=1", "-test.timeout=120s"],
                             timeout=150, env={"VERIF_SEED": ctx.seed, "VERIF_OUT": ctx.work})
     m5 = re.search(r"^STALEHEAP reproduced=(\w+).*$", out5, re.M)
@@ -274,7 +274,7 @@ def run_wall(ctx, binp, corr_broken):
         ctx.corr["stale_heap_replay"] = m5.group(0)[:700]
         if m5.group(1) == "true":
             ctx.violation("stale-heap-entry-hides-due", m5.group(0)[:700],
-                          open(os.path.join(ROOT, "corpus", "C04", "known", "stale_heap_entry.ops")).read() + m5.group(0) + "\n")
+                          open(os.path.join(ROOT, "corpus", "C04", "fixed", "stale_heap_entry.ops")).read() + m5.group(0) + "\n")
     elif "no tests to run" not in out5:
         ctx.log("TestVerifStaleHeapReplay did not complete (rc=%s):\n%s" % (rc5, out5[-1500:]))
         corr_broken.append("stale-heap replay exit %s" % rc5)
